@@ -234,6 +234,20 @@ theorem inv_setupNewUser (L : Laws e fold) {s : St Id} (hinv : Inv e s) (id : Id
         · intro h; rcases h with h | h <;> cases h
         · simp
 
+/-- The registration-time sweep of expired accounts (ptt.tryCleanUser → killUser) rewrites records of .PASSWDS only:
+the index part of a registration with the sweep due is the plain registration, so it keeps the invariant, and on a full
+table it is refused with the index exactly as before — whatever records the sweep emptied on file. -/
+theorem inv_setupNewUserSweep (L : Laws e fold) {s : St Id} (hinv : Inv e s) (recs : List Id) (expirable : List Nat)
+    (id : Id) :
+    ∃ s' r uid recs', setupNewUserSweep e s recs expirable id = .ok (s', r, uid, recs') ∧ Inv e s' ∧
+      ((r = .errExists ∨ r = .errInvalidUID) → s' = s) ∧ (r ≠ .errInvalidUID → recs' = recs) := by
+  obtain ⟨s', r, uid, hrun, hinv', href, _, _⟩ := inv_setupNewUser L hinv id true
+  refine ⟨s', r, uid, (if r = .errInvalidUID then sweepFile e expirable recs else recs), ?_, hinv',
+    fun h => (href h).1, ?_⟩
+  · simp only [setupNewUserSweep, hrun, bind_ok, pure_ok]
+  · intro h
+    simp [h]
+
 /-! ## a second process attaching to the live segment -/
 
 /-- NewSHM on an existing segment — as opener or AS CREATOR (what main_init does with IS_NEW_SHM on a restart or a
@@ -876,6 +890,19 @@ theorem onfly_disagreeing_file_loses_slot :
       .ok (0, none) := by rfl
   rw [h4] at this
   cases this
+
+/-- Which disagreeing files are judged: NONE as an explicit reload — every on-the-fly reload from a file that differs
+from the live table in the id of a slot leaves that slot on its old chain (the loader never unlinks), so the unchanged
+loader itself breaks the invariant there; what IS judged is every state the production writers reach, and they never
+reload from such a file.  The smallest instance of the class "slot emptied on file" (what the sweep leaves behind):
+odd chain 2 → 0, the file says slot 2 is empty; the reload moves slot 2 to the even chain with `next = -1`, and the live
+id 13 in the LOWER slot 0, which sat behind it, answers none. -/
+theorem reload_after_sweep_loses_live_id :
+    ∃ s', loadUHash toy2 { userid := [13, 22, 11], head := [1, 2], next := [-1, -1, 0], number := 3, loaded := 1 }
+        (some (sweepFile toy2 [2] [13, 22, 11], false)) = .ok (s', .ok) ∧
+      sweepFile toy2 [2] [13, 22, 11] = [13, 22, 0] ∧
+      s'.userid = [13, 22, 0] ∧ searchUserRaw toy2 s' 13 = .ok (0, none) :=
+  ⟨_, by rfl, by rfl, rfl, by rfl⟩
 
 end disagree
 
